@@ -339,10 +339,11 @@ class Service:
     for the asynchronous dispatcher, which must serve plain functions too).
     """
 
-    def __init__(self, world: World, flavour: str = 'sync', node: str = 'server'):
+    def __init__(self, world: World, flavour: str = 'sync', node: str = 'server', generation: int = 1):
         self.world = world
         self.flavour = flavour
         self.node = node
+        self.generation = generation     # which deployment of the functions this is (they can be registered again)
         self.methods: Dict[str, Callable[..., Any]] = {}
         self.is_coro: Dict[str, bool] = {}
         for i, (name, body) in enumerate(sorted(BODIES.items())):
@@ -369,7 +370,7 @@ class Service:
                 name = 'whoami_explicit'
             else:
                 shown.pop('ctx', None)
-        self.world.rec(self.node, 'method.enter', method=name, tok=tok, args=shown)
+        self.world.rec(self.node, 'method.enter', method=name, tok=tok, args=shown, gen=self.generation)
         return tok if isinstance(tok, str) else repr(tok)
 
     def _wrap_sync(self, name: str, body: Callable[..., Any]) -> Callable[..., Any]:
@@ -502,7 +503,8 @@ class Service:
 
         if is_async:
             async def vecho(self, tok, value=_MISSING):  # type: ignore[no-untyped-def]
-                world.rec(node, 'method.enter', method='vecho', tok=tok, args={} if value is _MISSING else {'value': value})
+                world.rec(node, 'method.enter', method='vecho', tok=tok, args={} if value is _MISSING else {'value': value},
+                          gen=service.generation)
                 self._seen = tok
                 for k, d in enumerate(world.plan.get(('method', tok), ()) if isinstance(tok, str) else ()):
                     await asyncio.sleep(d)
@@ -511,7 +513,8 @@ class Service:
                 return [self._seen, None if value is _MISSING else value]
         else:
             def vecho(self, tok, value=_MISSING):  # type: ignore[no-untyped-def,misc]
-                world.rec(node, 'method.enter', method='vecho', tok=tok, args={} if value is _MISSING else {'value': value})
+                world.rec(node, 'method.enter', method='vecho', tok=tok, args={} if value is _MISSING else {'value': value},
+                          gen=service.generation)
                 self._seen = tok
                 world.rec(node, 'method.exit', method='vecho', tok=tok, outcome='return')
                 return [self._seen, None if value is _MISSING else value]
